@@ -14,12 +14,12 @@ MANIFEST = {
             "export printer.VerifQueue) on exhaustive small and random queues/operation sequences. NOT proved, covered by search only: that writing a comment "
             "keeps its text intact and separate from neighbouring tokens, that the parser collects every comment, import sorting. Search: real format.Source on "
             "every corpus file / embedded test program / generated program, as is and with a uniquely numbered comment inserted at token boundaries "
-            "(14 styles: //, /* */, multi-line, #, own-line, doc groups, adjacent pairs, and randomly shaped multi-line block comments covering "
+            "(19 styles: //, /* */, multi-line, #, own-line, doc groups, adjacent pairs, and randomly shaped multi-line block comments covering "
             "stripCommonPrefix: lines of stars, bullets, space/tab/mixed indentation, blank lines, closing */ alone or after text, less/more indented, CRLF), "
-            "plus an exhaustive enumeration of block-comment shapes x 5 hosts, comparing scanner-level comment sequences of input and output.",
+            "plus an exhaustive enumeration of block-comment shapes x 5 hosts, comparing the comment sequence of the RAW input with that of the output, both read by the harness' own lexer (independent of the scanner under test; validated on every case against the real scanner and on .go files against go/scanner), plus UTF-8 validity of the output. Comment texts include non-ASCII text with every last-byte class, white-space runes, control characters, interior CR, CRLF, long lines.",
     "note": "trusted: Lean kernel; the translator's reading of printer/*.go (fact extraction by go/ast); the verif-tagged export printer/verif_queue.go "
             "(mimics printNode's `p.nextComment()` and fprint's final flush, both shapes checked by the translator); the harness' comment normalisation "
-            "(trailing white space per line, leading white space of continuation lines of /*-comments, CR) and its import-sort exemption "
+            "(trailing white-space CHARACTERS (whole runes) per line, leading white space of continuation lines of /*-comments, CR), its own comment lexer (lexer.go) and its import-sort exemption "
             "(comments inside `import ( … )` compared as a multiset); generators/corpus bound what the search sees. The theorems assume every comment is in "
             "p.comments (file.Comments non-nil => useNodeComments=false => setComment inert), offsets < 2^30.",
     "technique": "Lean 4 proof (invariant over a fuel-indexed loop model, induction on fuel / remaining queue) + translator fact record decided by the kernel "
@@ -31,7 +31,7 @@ MAX_KEYS = 6
 RULE = ("queue differential: all op lists up to length 2 (thorough 3) over 6 positions x impliedSemi for 7 queue shapes + random queues (0-6 groups, "
         "0-3 comments each, four comment styles, sorted and unsorted offsets, empty groups, positions incl. infinity, print/sizeBefore/before ops); "
         "search: every parsing file of the tree (.xgo .gox .go .spx .gmx .gsh ...), every raw-string test program embedded in *_test.go, generated XGo programs; "
-        "720 (thorough 18k) enumerated multi-line block-comment shapes x 5 hosts; as is + all-boundaries block-comment variant + single insertions (30 % of the quick samples use random rich block comments) (quick: sampled; thorough: every boundary x 13 styles, sources <= 1200 bytes first and completely, "
+        "720 (thorough 18k) enumerated multi-line block-comment shapes x 5 hosts; 2060 sources enumerating comment lines that end in a rune with each last byte 0x80..0xBF (2/3/4-byte), CR / control / white-space-rune / long-line cases; as is + all-boundaries block-comment variant + single insertions (30 % of the quick samples use random rich block comments) (quick: sampled; thorough: every boundary x 18 styles, sources <= 1200 bytes first and completely, "
         "the rest in random order until the 11 min budget ends); a case counts as non-trivial if the formatted source contains >= 1 comment / the queue has >= 1 comment and >= 1 op")
 
 
@@ -42,8 +42,18 @@ def _search(ctx, outdir, dis):
         return
     ctx.load_stats(sd)
     fails = ctx.oracle_failures(sd)
+    fails.sort(key=lambda f: f[0].startswith("corr:"))  # property failures first
     seen, extra = set(), {}
+    ncorr = 0
     for key, case, detail in fails:
+        if key.startswith("corr:"):
+            # the harness' own raw-source comment lexer and the real scanner (or go/scanner)
+            # read different comments: broken correspondence of the oracle's reference, not
+            # by itself a violation of C21
+            ncorr += 1
+            if ncorr <= 3:
+                ctx.broken.append("correspondence %s: %s [%s]" % (key, detail[:300], case[:200]))
+            continue
         # one broken piece of the printer shows up under many (node kind, position) keys:
         # report the first MAX_KEYS distinct unknown keys as violations, count the rest
         if key not in ctx.known and key not in seen and len(seen) >= MAX_KEYS:
@@ -51,7 +61,9 @@ def _search(ctx, outdir, dis):
             continue
         seen.add(key)
         ctx.report_concrete(key, {"case": case, "detail": detail, "harness": "c21",
-                                  "how": "C21 predicate (scanner-level comment sequence of input == of output, normalised) on the real format.Source"})
+                                  "how": "C21 predicate (comments of the RAW input == comments of the formatted output, both read by the harness' own lexer, normalised; output valid UTF-8) on the real format.Source"})
+    if ncorr:
+        ctx.coverage["lexer_scanner_disagreements"] = ncorr
     if extra:
         ctx.notes.append("further failing keys not written as replays (%d keys, %d cases): %s" % (
             len(extra), sum(extra.values()), ", ".join(sorted(extra)[:40])))
